@@ -979,7 +979,9 @@ var joinPool = [][]string{
 	{"/S/" + homeRel + "/sib", "..", "proj", "docs"},
 }
 
-var globPool = []string{"*.o", "sub/*", "sub/*.o", "**/*.o", "*.zz", "nomatch/*", "*", "sub/**", "**", "docs/*.html", "*/*.o", "sub/deep/*", "**/c.o", "o*.txt", "*.txt", "sub/*/d.txt", "b*"}
+var globPool = []string{"*.o", "sub/*", "sub/*.o", "**/*.o", "*.zz", "nomatch/*", "*", "sub/**", "**", "docs/*.html", "*/*.o", "sub/deep/*", "**/c.o", "o*.txt", "*.txt", "sub/*/d.txt", "b*",
+	// patterns that begin with a dot: a hidden directory that is not there (its un-dotted twin is), hidden entries
+	".sub/*", ".docs/*.html", ".*", ".*/*", ".sub/**", ".spok/*"}
 
 var varNames = []string{"OUT", "DIR", "TARGET", "BIN", "EMPTY", "DOCS", "P", "Q"}
 var taskNames = []string{"build", "docs", "test", "lint", "pkg"}
